@@ -79,7 +79,7 @@ def corruptions(rng, schema, k=3):
         if kind == 'unknown_rule':
             target['no_such_rule'] = 1
         elif kind == 'unknown_type':
-            target['type'] = rng.choice(['no_such_type', ['string', 'no_such_type']])
+            target['type'] = rng.choice(['no_such_type', ['string', 'no_such_type'], [['string', 'integer']], [1], ['string', 2]])
         elif kind == 'bad_constraint':
             present = [r for r in target if r in BAD_CONSTRAINTS]
             r = rng.choice(present) if present and rng.random() < 0.7 else rng.choice(sorted(BAD_CONSTRAINTS))
